@@ -2,8 +2,9 @@
    under table[Z][A] (columns Z and A); the row also spells the target as "Sym-A" (column "isotope").  The two must
    agree with each other and with core.element_base, or a mis-typed Z or A silently moves the reaction to another
    nuclide. *)
-From Coq Require Import ZArith String List Bool.
+From Coq Require Import ZArith QArith String Ascii List Bool.
 From PT Require Import Str Dec Act C06Rows.
+From PT.Gen Require ActivationDat.
 Import ListNotations.
 Open Scope string_scope.
 
@@ -25,3 +26,40 @@ Proof.
   intros rows E r Hin. pose proof sweep_act_rows as H. rewrite E in H. cbn [all_rows_name_target] in H.
   exact (proj1 (forallb_forall _ _) H r Hin).
 Qed.
+
+(* ---- the half-life is written twice in every row: as a number with a unit (columns "_Thalf", "_Thalf_unit": s, m, h,
+   d, y) and in hours (column "Thalf_hrs", the one activity() uses).  The two agree to 1/500 (a year of 365 to
+   365.25 days).  One row of the data as shipped did not: 186-W -> W-188 gave 69.4 d and 69.4 h (repaired). *)
+Open Scope Q_scope.
+Definition unit_hours (u : string) : option (Q * Q) :=      (* smallest and largest number of hours in the unit *)
+  if String.eqb u "s" then Some (1 # 3600, 1 # 3600)
+  else if String.eqb u "m" then Some (1 # 60, 1 # 60)
+  else if String.eqb u "h" then Some (1, 1)
+  else if String.eqb u "d" then Some (24, 24)
+  else if String.eqb u "y" then Some (8760, 8766)
+  else None.
+
+Definition halflife_cols_ok (line : string) : bool :=
+  let raw := split_char (ascii_of_nat 9) line in
+  match parse_int (nth 2 raw "") with
+  | None => true                         (* not a data row (header, comments) *)
+  | Some _ =>
+      match parse_dec (nth 8 raw ""), unit_hours (nth 9 raw ""), parse_dec (nth 17 raw "") with
+      | Some th, Some (lo, hi), Some hrs =>
+          (Qle_bool (th * lo * (499 # 500)) hrs && Qle_bool hrs (th * hi * (501 # 500)))%bool
+      | _, _, _ => false
+      end
+  end.
+
+Lemma sweep_halflife_cols : forallb halflife_cols_ok ActivationDat.activation_dat = true.
+Proof. vm_compute. reflexivity. Qed.
+
+Theorem halflife_columns_agree : forall line, In line ActivationDat.activation_dat -> halflife_cols_ok line = true.
+Proof. intros line H. exact (proj1 (forallb_forall _ _) sweep_halflife_cols line H). Qed.
+
+(* how many rows the sweep really examined (non-vacuity): the 513 reaction rows *)
+Definition is_data_row (line : string) : bool :=
+  match parse_int (nth 2 (split_char (ascii_of_nat 9) line) "") with Some _ => true | None => false end.
+Lemma halflife_rows_examined : length (filter is_data_row ActivationDat.activation_dat) = 513%nat.
+Proof. vm_compute. reflexivity. Qed.
+
